@@ -57,6 +57,11 @@ Definition run_zncc_loop (v : value) : value :=
                                                    (widths_of (vnth 2 v)) (as_z (vnth 3 v)) in
   VL [VZ i; enc_pq pq; of_zs [fst wr; snd wr]; enc_pq std].
 
+(* fid 8: (method u maxl minl maxr minr w), method 0 = sad, 1 = ssd -> cmax *)
+Definition run_cmax (v : value) : value :=
+  let f := if as_z (vnth 0 v) =? 0 then PointInterval.sad_cmax else PointInterval.ssd_cmax in
+  VZ (f (as_z (vnth 1 v)) (as_z (vnth 2 v)) (as_z (vnth 3 v)) (as_z (vnth 4 v)) (as_z (vnth 5 v)) (as_z (vnth 6 v))).
+
 Definition dispatch (fid : Z) (v : value) : value :=
   match fid with
   | 1 => run_point_interval v
@@ -66,6 +71,7 @@ Definition dispatch (fid : Z) (v : value) : value :=
   | 5 => run_sad_ssd_loop v
   | 6 => run_census_loop v
   | 7 => run_zncc_loop v
+  | 8 => run_cmax v
   | _ => VL [VZ (-1)]
   end.
 
